@@ -1394,8 +1394,20 @@ func (s *UtxoSweeper) handleExistingInput(input *sweepInputMessage,
 
 	// Update input details and sweep parameters. The re-offered input
 	// details may contain a change to the unconfirmed parent tx info.
+	//
+	// NOTE: the fee rate already offered for this input, either found from
+	// its spending tx in the mempool when it was first registered, or the
+	// one to be used for the next attempt after a failed publish, is kept
+	// unless the new params ask for a higher one, so the next sweeping
+	// attempt won't start below it.
+	offeredFeeRate := oldInput.params.StartingFeeRate.UnwrapOr(0)
+
 	oldInput.params = input.params
 	oldInput.Input = input.input
+
+	if offeredFeeRate > input.params.StartingFeeRate.UnwrapOr(0) {
+		oldInput.params.StartingFeeRate = fn.Some(offeredFeeRate)
+	}
 
 	// If the new input specifies a deadline, update the deadline height.
 	oldInput.DeadlineHeight = input.params.DeadlineHeight.UnwrapOr(
